@@ -208,17 +208,28 @@ Definition cols_of (evs : list (str * ev)) (drop : list nat) (nkeep : nat) (st :
                                     | None => [] end) fs))
   end.
 
+(* steps 2-4 for one term list, given the evaluated factor pool and the (joint) drop set *)
+Definition assemble (evs : list (str * ev)) (drop : list nat) (nrows : nat) (fr : bool) (terms : list term) : out :=
+  let nkeep := (nrows - length drop)%nat in
+  let per_term := get_scoped_terms fr evs terms in
+  (* a dict per term, then one dict for the frame *)
+  let term_cols := map (fun sts => fold_left (fun dct st => dict_update dct (cols_of evs drop nkeep st)) sts []) per_term in
+  let final := fold_left dict_update term_cols [] in
+  {| o_names := map fst final; o_cols := map snd final; o_drop := drop;
+     o_struct := map (fun sts => map (fun st => (map (fun f => (sf_expr f, sf_red f)) (st_f st), st_scale st)) sts) per_term |}.
+
 Definition build (d : frame) (nrows : nat) (c : cfg) (terms : list term) : res out :=
   do evs <- eval_pool d (pool_of terms) [];
   match na_action c, all_nulls evs with
   | NaRaise, _ :: _ => inr ENullRaise
-  | _, _ =>
-    let drop := drop_set c evs in
-    let nkeep := (nrows - length drop)%nat in
-    let per_term := get_scoped_terms (full_rank c) evs terms in
-    (* a dict per term, then one dict for the frame *)
-    let term_cols := map (fun sts => fold_left (fun dct st => dict_update dct (cols_of evs drop nkeep st)) sts []) per_term in
-    let final := fold_left dict_update term_cols [] in
-    inl {| o_names := map fst final; o_cols := map snd final; o_drop := drop;
-           o_struct := map (fun sts => map (fun st => (map (fun f => (sf_expr f, sf_red f)) (st_f st), st_scale st)) sts) per_term |}
+  | _, _ => inl (assemble evs (drop_set c evs) nrows (full_rank c) terms)
+  end.
+
+(* structured formulas: the factors of ALL parts are pooled and evaluated once, one joint drop set, then every part is assembled
+   from the shared pool (FormulaMaterializer.get_model_matrix steps 0-3) *)
+Definition build_parts (d : frame) (nrows : nat) (c : cfg) (parts : list (list term)) : res (list out) :=
+  do evs <- eval_pool d (pool_of (concat parts)) [];
+  match na_action c, all_nulls evs with
+  | NaRaise, _ :: _ => inr ENullRaise
+  | _, _ => inl (map (assemble evs (drop_set c evs) nrows (full_rank c)) parts)
   end.
